@@ -241,6 +241,13 @@ func (s *StatsCtx) Start() {
 
 // Close implements the [io.Closer] interface for *StatsCtx.
 func (s *StatsCtx) Close() (err error) {
+	// Every other user of the database opens its transaction with confMu
+	// held, and the hourly flush holds it exclusively.  Without it the flush
+	// (currMu, then the write transaction) and Close (the write transaction,
+	// then currMu) could block each other forever.
+	s.confMu.Lock()
+	defer s.confMu.Unlock()
+
 	db := s.db.Swap(nil)
 	if db == nil {
 		return nil
